@@ -122,11 +122,36 @@ def run(ctx):
                                      "variants": {str(k): v for k, v in outs.items()}},
                           "%d distinct outputs for one schema: variants %s differ from the first run" % (len(outs), other[:4]))
             nv += 1
+    # library use: a run's output must not depend on what the same process generated before (same file path, other options)
+    hist_schema = {"type": "object", "title": "A user id", "properties": {"user_id": {"type": "string"}, "html_url": {"type": "string", "format": "date"},
+                                                                       "n": {"type": "integer", "minimum": 0, "maximum": 200}}, "required": ["user_id"]}
+    hist_opts = [{"default_package": "demo", "default_output": "-"},
+                 {"default_package": "demo", "default_output": "-", "resolve_extensions": [".json"], "capitalizations": ["ID", "URL", "HTML"]},
+                 {"default_package": "other", "default_output": "-", "min_sized_ints": True, "extra_imports": True, "tags": ["json"]},
+                 {"default_package": "demo", "default_output": "-", "struct_name_from_title": True, "only_models": True}]
+    import os as _os
+    hroot = [_os.path.join(ctx.scratch, "c12hist")]
+    for fname in ("user-id.json", "html_url.json"):
+        files = {fname: json.dumps(hist_schema)}
+        fresh = {}
+        for oi, o in enumerate(hist_opts):
+            r = ctx.jsonl("gen", [{"id": "hist", "cfg": o, "files": files, "argv": [fname]}], extra=hroot)[0]
+            fresh[oi] = (r.get("ok"), json.dumps(r.get("outputs"), sort_keys=True))
+        import itertools as _it
+        for a, bb in _it.permutations(range(len(hist_opts)), 2):
+            rs = ctx.jsonl("gen", [{"id": "hist", "cfg": hist_opts[a], "files": files, "argv": [fname]}, {"id": "hist", "cfg": hist_opts[bb], "files": files, "argv": [fname]}], extra=hroot)
+            got = (rs[1].get("ok"), json.dumps(rs[1].get("outputs"), sort_keys=True))
+            ctx.count({"f": fname, "a": a, "b": bb}, True, "byte-identity/in-process-history")
+            if got != fresh[bb] and nv < 6:
+                ctx.violation("oracle", {"kind": "history", "files": files, "first": hist_opts[a], "second": hist_opts[bb], "argv": [fname],
+                                         "fresh_output": fresh[bb][1][:600], "output_after_first": got[1][:600]},
+                              "in one process, generating %s under %s and then under %s gives another output for the second run than a fresh process does" % (fname, hist_opts[a], hist_opts[bb]))
+                nv += 1
     ctx.cov["disagreements_checked"] = len(runs)
     ctx.cov["distinct_outputs_total"] = distinct_total
     ctx.cov["rule"] = ("5 special schemas (definition names tied under case folding / normalisation with different sub-schemas, colliding sibling properties, many imports and "
                        "constants, allOf/anyOf) + random in-guard schemas, under 5 option sets; each generated in %d separate processes: repeated runs, random and reversed key "
-                       "order inside every JSON object, moved to another directory, invoked relative to another working directory; stdout and written files compared byte for byte; 5 sets of mappings with look-alike ids (trailing #, /, case, prefix) x repeated processes; 3 multi-file layouts (extension-less references with a .json and a .yaml candidate of different content, several --resolve-extension / --yaml-extension flags in different orders and spellings, one or two file arguments) x repeated processes; "
+                       "order inside every JSON object, moved to another directory, invoked relative to another working directory; stdout and written files compared byte for byte; 5 sets of mappings with look-alike ids (trailing #, /, case, prefix) x repeated processes; the in-process generator run twice in one process on one file path under every ordered pair of 4 option sets, compared with a fresh process; 3 multi-file layouts (extension-less references with a .json and a .yaml candidate of different content, several --resolve-extension / --yaml-extension flags in different orders and spellings, one or two file arguments) x repeated processes; "
                        "non-trivial = every run; distinct by hash of (schema, variant)" % (2 * reps + 4))
     ctx.sample({"family": "byte-identity", "schema": schemas[0], "variants": [m[1] for m in meta[:6]], "sha": sha(runs[0].stdout)})
 
